@@ -119,6 +119,22 @@ func runC10(c *Ctx) {
 		for _, l := range mapLoops(f, vFieldLoadO(clientReqT, "pathParams")) {
 			if l.Header.Dominates(r.Block()) {
 				inLoop = true
+				// … on EVERY iteration: no value — an empty one in particular — is a reason to leave its placeholder in place
+				// (only "this placeholder does not occur in the text" excuses an iteration: the replacement would be a no-op)
+				noPlaceholder := func(cond ssa.Value, branch bool) bool {
+					cnd, b := stripNot(cond, branch)
+					call := asCall(cnd)
+					if call == nil || calleeName(&call.Call) != "strings.Contains" {
+						return false
+					}
+					if lit2, nm := concatLiteral(call.Call.Args[1]); !(lit2 == 2 && nm != nil) {
+						if k, isK := constString(call.Call.Args[1]); !isK || k != "{" {
+							return false
+						}
+					}
+					return !b
+				}
+				c.obI("R10.1", r, "substituted-on-every-iteration", l.everyIterationUnless(noPlaceholder, isOneOf(r)), "each path parameter's placeholder is substituted whatever the value is (an empty value yields an empty segment, not a leftover {name})", "an iteration of the substitution loop can skip the replacement: the placeholder reaches the wire as %7Bname%7D")
 				if es := originsOf(a[2]); len(es) == 1 {
 					if pe := asCall(es[0].V); pe != nil {
 						okval, _ := allOrigins(pe.Call.Args[0], oIsValue(extractOf(l.Next, 2)))
@@ -286,6 +302,14 @@ func runC10(c *Ctx) {
 			mu, ok := in.(*ssa.MapUpdate)
 			return ok && (vFieldLoad(clientReqT, "pathParams", nil)(mu.Map) || vFieldLoadO(clientReqT, "pathParams")(mu.Map)) && sameOrigins(mu.Key, spp.Params[1])
 		}
+		// … and verbatim: the value recorded is the value given (escaping happens at substitution; trimming or folding here
+		// makes different values build the same URL)
+		for _, in := range instrs(spp) {
+			if mu, ok := in.(*ssa.MapUpdate); ok && records(in) {
+				okVal, bad := allOrigins(mu.Value, oIsValue(spp.Params[2]))
+				c.obI("R10.1", mu, "path-parameter-recorded-verbatim", okVal, "SetPathParam records the value exactly as given", "the value recorded originates from "+describeOrigin(bad))
+			}
+		}
 		for _, r := range returnsOf(spp) {
 			if len(r.Results) != 1 || !isNilConst(r.Results[0]) {
 				continue
@@ -325,6 +349,22 @@ func runC10(c *Ctx) {
 			return ok && lk.CommaOk && isCallerParams(lk.X)
 		}, false)
 		c.obI("R10.2", sq[0].In, "caller-parameters-win", guardedBy(sq[0].In, nil, absent), "a static (pattern/base path) query parameter is set only when the caller's parameters do not contain that NAME (key presence, whatever its value — an explicitly empty value still wins)", "the static value can override a parameter the caller has set")
+		// … and it IS set whenever they do not: nothing else about the static parameter (an empty value — a bare flag such as
+		// ?pretty —, its length, its name) keeps it out of the URL
+		present := factBool(func(v ssa.Value) bool {
+			ex, ok := v.(*ssa.Extract)
+			if !ok || ex.Index != 1 {
+				return false
+			}
+			lk, ok := ex.Tuple.(*ssa.Lookup)
+			return ok && lk.CommaOk && isCallerParams(lk.X)
+		}, true)
+		for _, l := range mapLoops(f, nil) {
+			if !(l.Header.Dominates(sq[0].In.Block()) && reachableFrom(sq[0].In.Block(), l.Header)) {
+				continue
+			}
+			c.obI("R10.2", sq[0].In, "static-parameter-kept-unless-overridden", l.everyIterationUnless(present, isOneOf(sq[0].In)), "every static query parameter whose name the caller did not set is merged into the request's query", "an iteration of the merge can skip a static parameter although the caller did not set its name (e.g. when its value is empty): a flag fixed in the pattern or base path disappears")
+		}
 		// the key tested is the key being set
 		for _, lk := range tests {
 			c.obI("R10.2", lk, "same-name-tested", lk.Index == sq[0].Key, "the name tested is the name being set", "")
